@@ -4,13 +4,19 @@
 //! a root file and once per include statement followed by the indexer. With a budget set,
 //! exceeding it panics with a fixed message, so that a traversal that does not terminate on
 //! an include cycle becomes a deterministic failure.
+//!
+//! A second counter, with a budget of its own, is bumped once per record visited while a
+//! field lookup or a subclass test walks the class hierarchy.
 use std::cell::Cell;
 
 pub const BUDGET_EXCEEDED: &str = "verif: include traversal budget exceeded";
+pub const WALK_BUDGET_EXCEEDED: &str = "verif: class hierarchy walk budget exceeded";
 
 thread_local! {
     static STEPS: Cell<u64> = const { Cell::new(0) };
     static BUDGET: Cell<u64> = const { Cell::new(u64::MAX) };
+    static WALKS: Cell<u64> = const { Cell::new(0) };
+    static WALK_BUDGET: Cell<u64> = const { Cell::new(u64::MAX) };
 }
 
 pub fn reset(budget: u64) {
@@ -32,5 +38,27 @@ pub(crate) fn step() {
     if n > BUDGET.with(|b| b.get()) {
         BUDGET.with(|b| b.set(u64::MAX));
         panic!("{}", BUDGET_EXCEEDED);
+    }
+}
+
+pub fn reset_walks(budget: u64) {
+    WALKS.with(|s| s.set(0));
+    WALK_BUDGET.with(|b| b.set(budget));
+}
+
+pub fn walks() -> u64 {
+    WALKS.with(|s| s.get())
+}
+
+#[inline]
+pub(crate) fn walk_step() {
+    let n = WALKS.with(|s| {
+        let n = s.get() + 1;
+        s.set(n);
+        n
+    });
+    if n > WALK_BUDGET.with(|b| b.get()) {
+        WALK_BUDGET.with(|b| b.set(u64::MAX));
+        panic!("{}", WALK_BUDGET_EXCEEDED);
     }
 }
